@@ -2146,6 +2146,9 @@ func (self *LockDB) Lock(serverProtocol ServerProtocol, command *protocol.LockCo
 							return nil
 						}
 					}
+					// the update is answered at once: nobody holds a reference for an acknowledgement of
+					// this record (or of a later record of the hold), so its records must not ask for one
+					command.TimeoutFlag &^= protocol.TIMEOUT_FLAG_REQUIRE_ACKED
 					if currentLock.isAof {
 						_ = lockManager.PushLockAof(currentLock, AOF_FLAG_UPDATED)
 					}
@@ -2291,6 +2294,8 @@ func (self *LockDB) Lock(serverProtocol ServerProtocol, command *protocol.LockCo
 			isRequireAof := (lockManager.currentLock != nil && lockManager.currentLock.isAof) || (lockManager.currentData != nil && lockManager.currentData.isAof)
 			lockManager.ProcessLockData(command, lock, false)
 			if isRequireAof && lockManager.currentData != nil && !lockManager.currentData.isAof {
+				// the lock record is released below: the log record must not refer to it for an acknowledgement
+				command.TimeoutFlag &^= protocol.TIMEOUT_FLAG_REQUIRE_ACKED
 				_ = lockManager.PushLockAof(lock, 0)
 			}
 		}
